@@ -302,7 +302,7 @@ Section Typed.
     ue E Q CF (VList l) (UNamed c) = Exn e ->
     (exists i x f, nth_error l i = Some x /\ nth_error (sc_fields k) i = Some f /\
                    ue E Q CF x (cu true (sf_ty f)) = Exn e) \/
-    (exists rest, nt_tail konst_u (nt_exhausted (TyModel.has_default (sc_fields k))) rest = Exn e).
+    (exists rest, nt_tail (konst_u E) (nt_exhausted (TyModel.has_default (sc_fields k))) rest = Exn e).
   Proof.
     intros c k l e Hf H. cbn [ue] in H. rewrite Hf in H.
     match type of H with context [nt_items ?run ?ko ?mi (sc_fields k) l] =>
